@@ -35,6 +35,13 @@ type c03script struct {
 	failAt                                                            map[string]int
 	clientRev, serverRev                                              int
 	ctxDeadline                                                       bool // Do runs under a context with a far deadline
+	// C08: the server pauses for pauseGap in the middle of these packets (item index -> cut
+	// position in per mille of the packet's bytes, never before the packet code).
+	pauseIn  map[int]int
+	pauseGap time.Duration
+	// C08: ReadTimeout = NoTimeout and a handshake timeout shorter than the first gap, so that
+	// any deadline left on the connection by the handshake would be crossed.
+	noTimeout bool
 }
 
 var errSentinel = errors.New("callback sentinel failure")
@@ -280,11 +287,24 @@ func runScriptOpts(rt *rapid.T, s c03script, segsFor func(i int, n int) []int, g
 		if gapAfter != nil && i > 0 {
 			st.Delay = gapAfter(i)
 		}
+		if pm, ok := s.pauseIn[i]; ok && len(it.Encode(N, 0)) >= 2 {
+			inner := st.Bytes
+			cut := func(n int) int { return min(n, max(1, 1+pm*(n-2)/1000)) }
+			head := st
+			head.Segs = nil
+			head.Bytes = func(cs *ref.ClientStream) []byte { b := inner(cs); return b[:cut(len(b))] }
+			tail := simnet.Step{Name: st.Name + "-tail", Delay: s.pauseGap, Bytes: func(cs *ref.ClientStream) []byte { b := inner(cs); return b[cut(len(b)):] }}
+			e.srv.Steps = append(e.srv.Steps, head, tail)
+			continue
+		}
 		e.srv.Steps = append(e.srv.Steps, st)
 	}
 	opt := baseOptions(s.clientRev, s.comp)
 	if shortReadTimeout {
 		opt.ReadTimeout = 50 * time.Millisecond
+	}
+	if s.noTimeout {
+		opt.ReadTimeout, opt.HandshakeTimeout = ch.NoTimeout, 200*time.Millisecond
 	}
 	client, err := e.connect(context.Background(), opt)
 	if err != nil {
@@ -539,7 +559,11 @@ func TestC08ClientSegmentation(t *testing.T) {
 	st := stats.G()
 	rapid.Check(t, func(rt *rapid.T) {
 		s := drawScript(rt)
-		family := rapid.SampledFrom([]string{"one-byte", "two-piece", "random", "gaps", "gaps+one-byte"}).Draw(rt, "family")
+		family := rapid.SampledFrom([]string{"one-byte", "two-piece", "random", "gaps", "gaps+one-byte", "pause-inside-packet", "pause-inside-packet", "no-timeout"}).Draw(rt, "family")
+		pauses := map[int]int{}
+		for i, n := 0, rapid.IntRange(1, 3).Draw(rt, "paused-packets"); i < n; i++ {
+			pauses[rapid.IntRange(0, len(s.items)-1).Draw(rt, "paused-item")] = rapid.SampledFrom([]int{0, 1, 500, 999, 1000, rapid.IntRange(2, 998).Draw(rt, "pm")}).Draw(rt, "pause-at")
+		}
 		splitAt := rapid.IntRange(1, 40).Draw(rt, "split")
 		randSegs := rapid.SliceOfN(rapid.IntRange(1, 30), 1, 10).Draw(rt, "segs")
 		gap := rapid.SampledFrom([]time.Duration{60 * time.Millisecond, 101 * time.Millisecond, 350 * time.Millisecond}).Draw(rt, "gap")
@@ -577,6 +601,24 @@ func TestC08ClientSegmentation(t *testing.T) {
 			got = run(nil, func(i int) time.Duration { return gap }, true)
 		case "gaps+one-byte":
 			got = run(func(i, n int) []int { return ones(n) }, func(i int) time.Duration { return gap }, true)
+		case "pause-inside-packet":
+			// The bytes of a packet arrive in two pieces with a pause longer than the read timeout
+			// in between (and, one run in two, idle gaps between packets as well).
+			saved := s
+			s.pauseIn, s.pauseGap = pauses, gap
+			if splitAt%2 == 0 {
+				got = run(nil, func(i int) time.Duration { return gap }, true)
+			} else {
+				got = run(nil, nil, true)
+			}
+			s = saved
+		case "no-timeout":
+			// Reads without a timeout: idle gaps between packets and pauses inside them, each
+			// longer than the (short) handshake timeout, change nothing.
+			saved := s
+			s.pauseIn, s.pauseGap, s.noTimeout = pauses, gap+200*time.Millisecond, true
+			got = run(nil, func(i int) time.Duration { return gap + 200*time.Millisecond }, false)
+			s = saved
 		}
 		if strings.Join(got.out.trace, "\n") != strings.Join(base.out.trace, "\n") {
 			rt.Fatalf("[%s] callback trace depends on segmentation.\n single-segment: %q\n segmented:      %q\nscript %s", family, base.out.trace, got.out.trace, s.describe())
@@ -591,7 +633,7 @@ func TestC08ClientSegmentation(t *testing.T) {
 			rt.Fatalf("[%s] follow-up Ping differs (bytes consumed differ): single-segment %q, segmented %q\nscript %s", family, base.ping, got.ping, s.describe())
 		}
 		nt := family != "gaps" || got.timeouts > 0
-		st.Case(stats.Hash("c08c", s.describe(), family, splitAt, fmt.Sprint(randSegs), gap), nt && len(s.items) > 1, func() any {
+		st.Case(stats.Hash("c08c", s.describe(), family, splitAt, fmt.Sprint(randSegs), gap, fmt.Sprint(pauses)), nt && len(s.items) > 1, func() any {
 			return map[string]any{"kind": "client-segmentation", "family": family, "script": s.describe(), "read_deadline_expiries": got.timeouts}
 		})
 		st.Label("family:" + family)
